@@ -340,6 +340,10 @@ func runC23(c *core.Ctx) {
 			o, s := rspRun(cfg, cs)
 			return core.Exec{Sched: s, Outcome: fmt.Sprintf("schedule-level responder left=%d queue=%v", len(o.stateLeft), o.queueLeft), Viol: c23JudgeRsp(cs, o)}
 		})
+		c.ExploreSlow(map[string]any{"world": "responder", "case": cs}, vsched.Config{}, []int{0, 100}, func(cfg vsched.Config) core.Exec {
+			o, s := rspRun(cfg, cs)
+			return core.Exec{Sched: s, Outcome: fmt.Sprintf("responder left=%d queue=%v", len(o.stateLeft), o.queueLeft), Viol: c23JudgeRsp(cs, o)}
+		})
 	}
 	for _, local := range []int{0, 1} {
 		for _, acts := range [][]rspAct{nil, {{K: "ctx-cancel"}}, {{K: "api-pause"}}} {
@@ -383,7 +387,7 @@ func init() {
 			}
 			world, cj, cfg := w.World, w.Case, vsched.Config{Fast: true}
 			if w.Label != nil && w.Label.World != "" {
-				world, cj, cfg = w.Label.World, w.Label.Case, vsched.Config{Prefix: w.Prefix}
+				world, cj, cfg = w.Label.World, w.Label.Case, core.CfgFromReplay(raw)
 			}
 			var v *core.Violation
 			if world == "responder" {
